@@ -247,7 +247,23 @@ def part_c(res, rng, tier, seed, d):
                 flon, _ = truth_positions(probe0, fine, [1023.5])
             jumps = np.flatnonzero(np.abs(np.diff(flon[:, 0])) > 180)
             cross = fine[int(jumps[0])] if len(jumps) else cand[k]
-            t0 = cross // 1000 - int(n * period_us / 2000)
+            if len(jumps):
+                # bisect to the millisecond: one scan line is then taken exactly when the nadir is on the date line, so that its
+                # two central pixels lie on either side of it
+                lo_t, hi_t = fine[int(jumps[0])], fine[int(jumps[0]) + 1]
+                s_lo = np.sign(flon[int(jumps[0]), 0])
+                with warnings.catch_warnings():
+                    warnings.simplefilter("ignore")
+                    for _ in range(9):
+                        mid_t = (lo_t + hi_t) // 2
+                        mlon, _ = truth_positions(probe0, [mid_t], [1023.5])
+                        if np.sign(mlon[0, 0]) == s_lo:
+                            lo_t = mid_t
+                        else:
+                            hi_t = mid_t
+                cross = (lo_t + hi_t) // 2
+            half = n // 2
+            t0 = int(round(cross / 1000.0 - half * period_us / 1000.0))
         start = tg.dt_of(t0)
         times_us = [t0 * 1000 + int(round(i * period_us)) for i in range(n)]
         tie_pos = [23.5 + 40 * k for k in range(51)] if res_ == "gac" else [24.0 + 40 * k for k in range(51)]
